@@ -620,7 +620,7 @@ func (runInfo *runInfoStruct) runForChanStmt(stmt *ast.ForStmt, value reflect.Va
 			runInfo.rv = runInfo.rv.Elem()
 		}
 
-		runInfo.env.DefineValue(stmt.Vars[0], runInfo.rv)
+		runInfo.env.DefineValue(stmt.Vars[0], detachValue(runInfo.rv))
 
 		runInfo.stmt = stmt.Stmt
 		runInfo.runSingleStmt()
